@@ -28,6 +28,6 @@ def drivers():
         n = (40 if tier == "quick" else 600) * scale
         return ["-profile", "c13", "-n", str(n), "-ops", "35", "-seed", str(seed)]
     return [{"driver": "coredrive", "args": args, "replay_args": lambda tier: [], "timeout": 1500}]
-LEVEL_TEXT = "Machine-checked proof (Coq) that for EVERY operation history within one daemon lifetime every channel satisfies message_count = depth + in-flight + deferred + finished + emptied (+ ephemeral overflow drops, zero on durable channels), and that a topic's message_count/message_bytes change exactly by what each publish adds. Trace validation: /stats?format=json of a real nsqd is compared with the model after every operation, and a model-independent ledger checks the conservation law, topic counters, each consumer's ready/in-flight/finish/requeue/message counts and non-negativity on every snapshot."
+LEVEL_TEXT = "Machine-checked proof (Coq) that for EVERY operation history within one daemon lifetime every channel satisfies message_count = depth + in-flight + deferred + finished + emptied (+ ephemeral overflow drops, zero on durable channels), that a topic's message_count/message_bytes change exactly by what each publish adds, that each consumer's finish/requeue/message counters equal the tally of its accepted FINs, REQs and deliveries over the whole history, and that its in-flight count equals the in-flight entries it owns (never negative). Trace validation: /stats?format=json of a real nsqd is compared with the model after every operation, and a model-independent ledger checks the conservation law, topic counters, each consumer's ready/in-flight/finish/requeue/message counts and non-negativity on every snapshot."
 LEVEL_NOTE = 'Text rendering of /stats and topic/channel filters are glue (compared by the harness in the thorough tier, not modelled). The partial-MPUB accounting branch needs a backend write error (not reachable without fault injection).'
 DESIGN_REF = "DESIGN.md section 5.0 and C13"
